@@ -129,7 +129,21 @@ def gen_cohort(env, rng, kind, n_sub):
     return spec
 
 
-def build_data(env, kind, univariate, spec):
+def build_data(env, kind, univariate, spec, case=None):
+    """(what is handed to personalize, the Data object, identifiers in input order).  Optional keys of `case`:
+    shift (years added to every age), row_shuffle (seed: rows of the table not grouped by individual), keepnan (a visit without any
+    value, kept through drop_full_nan=False), data_as ("data" | "dataframe" | "dataset")."""
+    case = case or {}
+    data, ids, table = _build_data(env, kind, univariate, spec, case)
+    how = case.get("data_as", "data")
+    if how == "dataframe" and kind != "joint" and not case.get("keepnan"):
+        return table, data, ids
+    if how == "dataset":
+        return env["Dataset"](data), data, ids
+    return data, data, ids
+
+
+def _build_data(env, kind, univariate, spec, case):
     np, pd = env["np"], env["pd"]
     df = pool(env, kind)
     feats = [c for c in df.columns if c.startswith("Y")]
@@ -151,11 +165,89 @@ def build_data(env, kind, univariate, spec):
     if univariate:
         out = out[[c for c in out.columns if not c.startswith("Y") or c == feats[0]]]
     kw = {"data_type": "joint"} if kind == "joint" else {}
-    return env["Data"].from_dataframe(out, **kw), [x[1] for x in spec]
+    if case.get("shift"):
+        out["TIME"] = out["TIME"] + float(case["shift"])
+        if "EVENT_TIME" in out.columns:
+            out["EVENT_TIME"] = out["EVENT_TIME"] + float(case["shift"])
+    if case.get("keepnan"):
+        first = out.iloc[[0]].copy()
+        first[[c for c in out.columns if c.startswith("Y")]] = np.nan
+        first["TIME"] = float(out[out.ID == out.ID.iloc[0]]["TIME"].min()) - 0.5
+        out = pd.concat([out, first], ignore_index=True)
+        kw["drop_full_nan"] = False
+    if case.get("row_shuffle") is not None:
+        import random as _r
+        order = list(range(len(out)))
+        _r.Random(case["row_shuffle"]).shuffle(order)
+        out = out.iloc[order].reset_index(drop=True)
+    # input order = order of first appearance among the rows the reader keeps (it drops the visits without any value unless asked not to)
+    ycols = [c for c in out.columns if c.startswith("Y")]
+    keep = out if (case.get("keepnan") or kind == "joint") else out[out[ycols].notna().any(axis=1)]
+    ids = list(dict.fromkeys(keep["ID"]))
+    return env["Data"].from_dataframe(out, **kw), ids, out
+
+
+MIXTURE = "mixture_logistic(fitted here)"
+
+
+def _tmpdir(env):
+    if "_tmp" not in env:
+        import tempfile
+        env["_tmp"] = tempfile.mkdtemp(prefix="c17_")
+    return env["_tmp"]
+
+
+def model_path(env, name):
+    if name != MIXTURE:
+        return str(core.REPO / f"tests/_data/model_parameters/from_fit/{name}.json")
+    # no stored mixture model: one is calibrated here (30 iterations on the 17 example subjects) and saved
+    import os
+    path = os.path.join(_tmpdir(env), "mixture.json")
+    if not os.path.exists(path):
+        from leaspy.models import model_factory
+        m = model_factory("mixture_logistic", dimension=4, source_dimension=2, n_clusters=2)
+        with core.quiet():
+            m.fit(env["Data"].from_dataframe(pool(env, "continuous")), "mcmc_saem", n_iter=30, seed=0, progress_bar=False)
+            m.save(path)
+    return path
 
 
 def load_model(env, name):
-    return env["BaseModel"].load(str(core.REPO / f"tests/_data/model_parameters/from_fit/{name}.json"))
+    return env["BaseModel"].load(model_path(env, name))
+
+
+def prep_model(env, chk, case):
+    """The model object personalize is called on: freshly loaded (default), one object shared by all the cases of the run, loaded from
+    a file whose dispersion / noise parameters were rescaled by hand, or calibrated a little further just before (a fit leaves the
+    training individuals' values in the model state)."""
+    how = case.get("model_prep", "loaded")
+    name = case["model"]
+    if how == "shared":
+        cache = env.setdefault("_shared_models", {})
+        if name not in cache:
+            cache[name] = load_model(env, name)
+        return cache[name]
+    if how == "edited":
+        import json
+        import os
+        d = json.load(open(model_path(env, name)))
+        for k, f in case["edits"].items():
+            if k in d["parameters"]:
+                v = d["parameters"][k]
+                d["parameters"][k] = [x * f for x in v] if isinstance(v, list) else v * f
+        path = os.path.join(_tmpdir(env), "edited.json")
+        json.dump(d, open(path, "w"))
+        return env["BaseModel"].load(path)
+    model = load_model(env, name)
+    if how == "fitted":
+        try:
+            _, data, _ = build_data(env, case["kind"], name.startswith("univariate"), case["fit_cohort"])
+            with core.quiet():
+                model.fit(data, "mcmc_saem", n_iter=case.get("fit_iter", 3), seed=case["seed"] or 0, progress_bar=False)
+        except Exception as e:  # noqa  (a tiny calibration that does not go through is not this property's matter)
+            chk.tag("calibration_before_personalize_failed", type(e).__name__)
+            model = load_model(env, name)
+    return model
 
 
 def expected_shapes(env, model):
@@ -187,6 +279,8 @@ class ChainRecorder:
 
         def init(algo, model, dataset):
             st = orig_init(algo, model, dataset)
+            # a new run starts (possibly of an algorithm object that has run before): what is recorded is the last run
+            rec.chain, rec.fed, rec.est = [], None, None
             rec.state = st
             rec.nburn = algo.algo_parameters["n_burn_in_iter"]
             rec.n_iter = algo.algo_parameters["n_iter"]
@@ -293,22 +387,78 @@ def case_json(case):
     return {k: v for k, v in case.items() if not k.startswith("_")}
 
 
+def expected_burn(case):
+    """Number of burn-in iterations the SETTINGS ask for (never read back from the algorithm object): an explicit count wins;
+    otherwise the fraction of n_iter, rounded down.  Second component: False when the float product n_iter * frac and the exact
+    product fall on different sides of an integer (either count is then accepted)."""
+    b = case["burn"]
+    if b[0] in ("count", "both"):
+        return int(b[1]), True
+    exact = int(Fraction(str(b[1])) * case["n_iter"])
+    return exact, exact == int(b[1] * case["n_iter"])
+
+
 def settings_kwargs(case):
-    kw = dict(seed=case["seed"], progress_bar=False)
+    kw = dict(seed=case["seed"], progress_bar=bool(case.get("progress_bar", False)))
     if case["algo"] == "scipy_minimize":
-        kw.update(use_jacobian=case["use_jacobian"], n_jobs=1)
+        kw.update(use_jacobian=case["use_jacobian"], n_jobs=case.get("n_jobs", 1))
         if case.get("custom"):
             kw["custom_scipy_minimize_params"] = case["custom"]
+        if case.get("custom_format"):
+            kw["custom_format_convergence_issues"] = case["custom_format"]
         return kw
     kw.update(n_iter=case["n_iter"])
+    if case.get("sampler_params"):
+        kw["sampler_ind_params"] = dict(case["sampler_params"])
     if case["burn"][0] == "count":
         kw.update(n_burn_in_iter=case["burn"][1], n_burn_in_iter_frac=None)
+    elif case["burn"][0] == "both":        # deprecated but supported: the explicit count has priority over the fraction
+        kw.update(n_burn_in_iter=case["burn"][1], n_burn_in_iter_frac=case["burn"][2])
     else:
         kw.update(n_burn_in_iter_frac=case["burn"][1])
     if case["annealing"]:
         kw.update(annealing=dict(do_annealing=True, initial_temperature=case["annealing"][0], n_plateau=case["annealing"][1],
                                  n_iter=None, n_iter_frac=0.5))
     return kw
+
+
+def call_personalize(env, model, given, data, case, rec=None):
+    """model.personalize through the entry point the case names: keyword settings (default), the algorithm given as an
+    AlgorithmName, an AlgorithmSettings object, a settings file written by AlgorithmSettings.save, or the algorithm object
+    built by algorithm_factory and run on the tensor dataset."""
+    from leaspy.algo import AlgorithmName, AlgorithmSettings, algorithm_factory
+    entry = case.get("entry", "kwargs")
+    kw = settings_kwargs(case)
+    if entry == "kwargs":
+        return model.personalize(given, case["algo"], **kw)
+    if entry == "enum":
+        return model.personalize(given, AlgorithmName(case["algo"]), **kw)
+    settings = AlgorithmSettings(case["algo"], **kw)
+    if entry == "settings":
+        return model.personalize(given, algorithm_settings=settings)
+    if entry == "path":
+        import os
+        path = os.path.join(_tmpdir(env), "settings.json")
+        settings.save(path)
+        return model.personalize(given, algorithm_settings_path=path)
+    if entry == "factory":
+        ds = given if isinstance(given, env["Dataset"]) else env["Dataset"](data)
+        algo = algorithm_factory(settings)
+        # ONE algorithm object for several cohorts in a row (next fold / next batch): the runs before the recorded one
+        for prior in case.get("prior_cohorts") or []:
+            _, d0, _ = build_data(env, case["kind"], case["model"].startswith("univariate"), prior, case)
+            algo.run(model, env["Dataset"](d0))
+        if rec is not None and hasattr(rec, "calls"):
+            rec.calls.clear()
+        return algo.run(model, ds)
+    raise ValueError(entry)
+
+
+def mixture_sampling_refusal(case, e):
+    """F121 region: a mixture model personalized with a sampling-based algorithm stops on a tensor-shape error."""
+    return (case["model"] == MIXTURE and case["algo"] in ("mean_posterior", "mode_posterior")
+            and isinstance(e, (RuntimeError, IndexError, AssertionError))
+            and any(k in str(e) for k in ("must match the size of tensor", "Dimension out of range", "Bad shapes")))
 
 
 def basic_output_checks(env, chk, cj, model, ips, input_ids):
@@ -341,17 +491,27 @@ def basic_output_checks(env, chk, cj, model, ips, input_ids):
 def run_mcmc_case(env, chk, case, lines, pending):
     torch, np = env["torch"], env["np"]
     cj = case_json(case)
-    model = load_model(env, case["model"])
-    data, input_ids = build_data(env, case["kind"], case["model"].startswith("univariate"), case["cohort"])
+    model = prep_model(env, chk, case)
+    given, data, input_ids = build_data(env, case["kind"], case["model"].startswith("univariate"), case["cohort"], case)
     try:
         with ChainRecorder(env) as rec, core.quiet():
-            ips = model.personalize(data, case["algo"], **settings_kwargs(case))
+            ips = call_personalize(env, model, given, data, case, rec)
     except Exception as e:  # noqa
-        chk.impl_failure(cj, f"personalize raised {type(e).__name__}: {e}")
+        if mixture_sampling_refusal(case, e):
+            env["_f121_seen"] = True
+        chk.impl_failure(cj, f"personalize raised {type(e).__name__}: {e}", finding="F121" if mixture_sampling_refusal(case, e) else None)
         chk.case(("mcmc-exc", str(cj)), nontrivial=False, tags={"algo": case["algo"], "outcome": "exception"})
         return
     basic_output_checks(env, chk, cj, model, ips, input_ids)
-    n_iter, nb = case["n_iter"], rec.nburn
+    n_iter = case["n_iter"]
+    # the burn-in length is the one the settings ask for, not the one the algorithm object reports
+    nb, sure = expected_burn(case)
+    if rec.nburn != nb:
+        if sure or rec.nburn not in (nb, nb + 1, nb - 1):
+            chk.impl_failure(cj, f"the algorithm works with n_burn_in_iter = {rec.nburn}, the settings ask for {nb} ({case['burn']}, n_iter={n_iter})")
+        else:
+            chk.tag("burn_in_fraction_at_a_float_boundary", 1)
+            nb = rec.nburn
     chain = rec.chain
     if len(chain) != n_iter or [c["k"] for c in chain] != list(range(1, n_iter + 1)):
         chk.impl_failure(cj, f"{len(chain)} iterations recorded for n_iter={n_iter}")
@@ -422,10 +582,16 @@ def run_mcmc_case(env, chk, case, lines, pending):
                                          for i in range(n_ind)) for n in est)
     lines.append(f"align ids={','.join(hx(i) for i in rec.ids_dataset)} t={t}")
     pending.append(("align", case, dict(ips=canon_ips(ips))))
-    distinct_losses = len({float((c["att"] + c["reg"]).sum()) for c in kept}) > 1
+    try:
+        distinct_losses = len({float(c["att"].sum() + c["reg"].sum()) for c in kept}) > 1
+    except Exception:  # noqa
+        distinct_losses = False
     chk.case(("mcmc", str(cj)), nontrivial=(nb >= 1 and K >= 2 and distinct_losses),
              sample=cj if len(chk.samples) < 2 else None,
-             tags={"algo": case["algo"], "model": case["model"], "n_subjects": n_ind, "n_iter": n_iter, "n_burn": nb, "kept": K,
+             tags={"algo": case["algo"], "model": case["model"], "n_subjects": n_ind, "n_iter": n_iter if n_iter <= 30 else "31+", "n_burn": nb if nb <= 30 else "31+",
+                   "kept": K if K <= 30 else "31+", "entry": case.get("entry", "kwargs"), "data_as": case.get("data_as", "data"),
+                   "model_prep": case.get("model_prep", "loaded"), "burn_given_as": case["burn"][0],
+                   "earlier_runs_of_the_algorithm_object": len(case.get("prior_cohorts") or []),
                    "annealing": bool(case["annealing"]), "single_visit_subjects": sum(len(s[2]) == 1 for s in case["cohort"]),
                    "missing_cells": sum(len(s[3]) for s in case["cohort"]) > 0, "outcome": "ok"})
     if ties:
@@ -501,11 +667,11 @@ def objective(env, model, dataset_i, ips_i):
 def run_scipy_case(env, chk, case, lines=None, pending=None):
     torch = env["torch"]
     cj = case_json(case)
-    model = load_model(env, case["model"])
-    data, input_ids = build_data(env, case["kind"], case["model"].startswith("univariate"), case["cohort"])
+    model = prep_model(env, chk, case)
+    given, data, input_ids = build_data(env, case["kind"], case["model"].startswith("univariate"), case["cohort"], case)
     try:
         with MinimizeRecorder(env) as rec, core.quiet():
-            ips = model.personalize(data, "scipy_minimize", **settings_kwargs(case))
+            ips = call_personalize(env, model, given, data, case, rec)
     except Exception as e:  # noqa
         chk.impl_failure(cj, f"personalize raised {type(e).__name__}: {e}")
         chk.case(("scipy-exc", str(cj)), nontrivial=False, tags={"algo": "scipy_minimize", "outcome": "exception"})
@@ -541,7 +707,8 @@ def run_scipy_case(env, chk, case, lines=None, pending=None):
                 chk.impl_failure(cj, f"start point / returned estimate of the recorded run could not be related to the scalings: "
                                      f"{type(e).__name__}: {e}")
     chk.case(("scipy", str(cj)), nontrivial=improved > 0, sample=cj if len(chk.samples) < 3 else None,
-             tags={"algo": "scipy_minimize", "model": case["model"], "n_subjects": len(input_ids),
+             tags={"algo": "scipy_minimize", "model": case["model"], "n_subjects": len(input_ids), "entry": case.get("entry", "kwargs"),
+                   "data_as": case.get("data_as", "data"), "model_prep": case.get("model_prep", "loaded"),
                    "single_visit_subjects": sum(len(s[2]) == 1 for s in case["cohort"]),
                    "missing_cells": sum(len(s[3]) for s in case["cohort"]) > 0, "outcome": "ok"})
 
@@ -683,17 +850,19 @@ def np_reference(env, names, loc, scale, x_by_name=None, v=None):
     np = env["np"]
     out = {}
     if x_by_name is not None:
+        # torch: x.float() (op) loc (op) scale, promoted to float64 when the model holds float64 parameters (after a joint fit)
         with np.errstate(all="ignore"):
-            out["scaling"] = np.concatenate([((np.asarray(x_by_name[n], dtype=np.float32) - loc[n]) / scale[n]).astype(np.float32)
+            out["scaling"] = np.concatenate([((np.asarray(x_by_name[n], dtype=np.float32) - loc[n]) / scale[n])
+                                             .astype(np.result_type(np.float32, loc[n].dtype, scale[n].dtype))
                                              for n in names]) if names else np.zeros(0, dtype=np.float32)
     if v is not None:
         # torch promotes float32 tensor (op) float64 array to float64, and stays in float32 for a float32 array
         # (scipy's Nelder-Mead keeps the float32 dtype of x0 for res.x, Powell returns float64)
         vv = np.asarray(v)
-        wd = np.float32 if vv.dtype == np.float32 else np.float64
         off, d = 0, {}
         for n in names:
             k = len(loc[n])
+            wd = np.result_type(np.float32 if vv.dtype == np.float32 else np.float64, loc[n].dtype, scale[n].dtype)
             d[n] = (loc[n].astype(wd) + scale[n].astype(wd) * vv[off:off + k].astype(wd)).astype(np.float32)
             off += k
         out["unscaling"] = d
@@ -947,8 +1116,8 @@ def link_scipy_run(env, chk, case, model, data, input_ids, ips, rec, lines, pend
         sc = call["scaling"]
         try:
             names = list(sc.scalings)
-            loc = {n: sc.scalings[n].loc.detach().numpy().astype(np.float32) for n in names}
-            scale = {n: sc.scalings[n].scale.detach().numpy().astype(np.float32) for n in names}
+            loc = {n: sc.scalings[n].loc.detach().numpy() for n in names}          # in the dtype the model holds (float64 after a joint fit)
+            scale = {n: sc.scalings[n].scale.detach().numpy() for n in names}
         except Exception as e:  # noqa
             chk.impl_failure(cj, f"id {idx!r}: the scalings handed to the optimiser are unreadable ({type(e).__name__})")
             continue
@@ -957,8 +1126,8 @@ def link_scipy_run(env, chk, case, model, data, input_ids, ips, rec, lines, pend
             pn = getattr(var.prior, "parameters_names", ())
             shape = tuple(var.get_prior_shape(st.dag))
             if len(pn) == 2:
-                m = torch.broadcast_to(st[pn[0]], shape).numpy().astype(np.float32)
-                s = torch.broadcast_to(st[pn[1]], shape).numpy().astype(np.float32)
+                m = torch.broadcast_to(st[pn[0]], shape).numpy()
+                s = torch.broadcast_to(st[pn[1]], shape).numpy()
                 if n not in loc or not (np.array_equal(loc[n], m) and np.array_equal(scale[n], s)):
                     chk.impl_failure(cj, f"id {idx!r}: coordinates of '{n}' are not standardized by the prior mode {m.tolist()} / stddev {s.tolist()}")
         init = call.get("init")
@@ -1145,6 +1314,142 @@ def gen_case(env, rng, algo, model_name):
     return case
 
 
+FRACS = [0.0, 0.05, 0.1, 0.2, 0.25, 0.3, 0.3333, 0.5, 0.6, 0.75, 0.9, 0.95, 0.99]
+CUSTOM_SCIPY = [None, None, {"method": "Powell", "options": {"maxiter": 1}}, {"method": "Nelder-Mead", "options": {"maxiter": 3}},
+                {"method": "Powell", "options": {"maxiter": 2, "xtol": 1e-2, "ftol": 1e-2}},
+                {"method": "Powell", "options": {"maxfev": 7}}, {"method": "Nelder-Mead"}, {"method": "L-BFGS-B"},
+                {"method": "BFGS", "options": {"gtol": 1e-2, "maxiter": 4}}, {"method": "Powell", "options": {"xtol": 1e-6, "ftol": 1e-7, "maxiter": 50}}]
+
+
+def gen_wide_case(env, rng, algo, model_name):
+    """A case of `gen_case` handed over / configured in the other ways the API accepts (see build_data, prep_model, call_personalize,
+    settings_kwargs): table rows not grouped by individual, another time scale, a visit without any value, DataFrame / Dataset input,
+    every entry point (one algorithm object run on other cohorts first), a shared / re-calibrated / hand-rescaled model object, seed 0 / None, progress bar, sampler tuning, longer
+    chains, burn-in given as a count, a fraction or both."""
+    case = gen_case(env, rng, algo, model_name)
+    kind = case["kind"]
+    r = rng.random
+    if r() < 0.12 and algo != "scipy_minimize":          # the whole example cohort
+        df = pool(env, kind)
+        subjects = list(dict.fromkeys(df.ID))
+        case["cohort"] = [[sub, f"s{j:02d}" if j % 2 else f"S{99 - j}", list(range(int((df.ID == sub).sum()))), []] for j, sub in enumerate(subjects)]
+    if r() < 0.5:
+        case["row_shuffle"] = rng.randrange(10 ** 6)
+    if r() < 0.3 and kind != "binary":
+        case["shift"] = rng.choice([-10.0, 10.0] if kind == "joint" else [-30.0, -10.0, 10.0, 30.0, 200.0])
+    if r() < 0.2:
+        case["keepnan"] = True
+    case["data_as"] = rng.choice(["data", "data", "dataframe", "dataset"])
+    case["entry"] = rng.choice(["kwargs", "enum", "settings", "path", "factory", "factory"])
+    if case["entry"] == "factory" and r() < 0.75:
+        n = len(case["cohort"])
+        prior = [(gen_cohort(env, rng, kind, n) if n <= 8 else list(reversed(case["cohort"]))) if r() < 0.6
+                 else gen_cohort(env, rng, kind, rng.choice([1, 2, 3, 5])) for _ in range(rng.choice([1, 1, 2]))]
+        ok = []
+        for co in prior:       # (the data layer refuses some cohorts, e.g. a joint cohort without any observed event: left out)
+            try:
+                with core.quiet():
+                    build_data(env, kind, model_name.startswith("univariate"), co)
+                ok.append(co)
+            except Exception:  # noqa
+                pass
+        case["prior_cohorts"] = ok
+    preps = ["loaded", "shared", "shared", "edited", "fitted"] + (["edited", "edited"] if algo == "scipy_minimize" else [])
+    case["model_prep"] = rng.choice(preps) if model_name != MIXTURE else rng.choice(["loaded", "shared"])
+    if case["model_prep"] == "edited":
+        # prior dispersions / noise levels rescaled by hand, over the range the documentation allows (any positive number)
+        case["edits"] = {k: f for k, f in (("tau_std", rng.choice([0.05, 0.2, 5.0, 20.0])), ("xi_std", rng.choice([0.05, 0.2, 3.0, 10.0])),
+                                           ("noise_std", rng.choice([0.1, 0.3, 3.0, 10.0]))) if r() < 0.6} or {"xi_std": rng.choice([0.05, 3.0])}
+    if case["model_prep"] == "fitted":
+        case["fit_cohort"] = gen_cohort(env, rng, kind, rng.choice([4, 5, 6]))
+        case["fit_iter"] = rng.choice([1, 3])
+    case["seed"] = rng.choice([case["seed"], case["seed"], 0, None])
+    case["progress_bar"] = r() < 0.15
+    if algo == "scipy_minimize":
+        case["custom"] = rng.choice(CUSTOM_SCIPY)
+        case["use_jacobian"] = False if case["custom"] else r() < 0.5
+        if r() < 0.25:
+            case["custom_format"] = "<{patient_id}>"
+        return case
+    small = len(case["cohort"]) <= 3
+    n_iter = rng.choice([1, 2, 3, 7, 10, 20, 40] + ([60, 130] if small else []))
+    case["n_iter"] = n_iter
+    for _ in range(50):
+        how = rng.choice(["count", "frac", "frac", "both"])
+        if how == "count":
+            case["burn"] = ["count", rng.choice([0, 0, n_iter - 1, rng.randrange(0, n_iter)])]
+        elif how == "both":
+            case["burn"] = ["both", rng.randrange(0, n_iter), rng.choice(FRACS)]
+        else:
+            case["burn"] = ["frac", rng.choice(FRACS)]
+        if expected_burn(case)[1]:
+            break
+    if r() < 0.3:
+        case["sampler_params"] = {"acceptation_history_length": rng.choice([1, 2, 5]), "mean_acceptation_rate_target_bounds": [0.2, 0.4],
+                                  "adaptive_std_factor": rng.choice([0.1, 0.5])}
+    plateau = rng.choice([2, 3])
+    case["annealing"] = [rng.choice([2.0, 5.0, 10.0]), plateau] if (r() < 0.4 and int(0.5 * n_iter) >= plateau - 1) else None
+    return case
+
+
+def pooled_part(env, chk, rng):
+    """scipy_minimize with n_jobs=2 (worker processes; the recorder cannot see them): clause 1 on the result, and the very estimates
+    of the in-process run of the same case."""
+    case = gen_case(env, rng, "scipy_minimize", rng.choice(["logistic_diag_noise", "linear_scalar_noise", "univariate_logistic"]))
+    case["cohort"] = gen_cohort(env, rng, case["kind"], 4)
+    case.update(custom=None, use_jacobian=False, n_jobs=2)
+    run_pooled(env, chk, case)
+
+
+def run_pooled(env, chk, case):
+    cj = case_json(case)
+    try:
+        outs = []
+        for nj in (1, 2):
+            model = load_model(env, case["model"])
+            given, data, input_ids = build_data(env, case["kind"], case["model"].startswith("univariate"), case["cohort"], case)
+            with core.quiet():
+                outs.append(call_personalize(env, model, given, data, dict(case, n_jobs=nj)))
+    except Exception as e:  # noqa
+        chk.impl_failure(cj, f"personalize raised {type(e).__name__}: {e}")
+        return
+    basic_output_checks(env, chk, cj, model, outs[1], input_ids)
+    if outs[1]._indices != outs[0]._indices or outs[1]._individual_parameters != outs[0]._individual_parameters:
+        chk.impl_failure(cj, "n_jobs=2 does not return the estimates of the in-process run (same data, same seed): "
+                             f"{outs[1]._individual_parameters} vs {outs[0]._individual_parameters}")
+    chk.case(("pooled", str(cj)), nontrivial=True, tags={"algo": "scipy_minimize", "part": "n_jobs=2"})
+
+
+def idtype_part(env, chk, rng):
+    """Identifiers that are not strings (the result container only knows string identifiers): refused, or returned as they were given -
+    never silently replaced by other keys."""
+    df = pool(env, "continuous")
+    subjects = rng.sample(list(dict.fromkeys(df.ID)), 3)
+    for algo in ("mean_posterior", "scipy_minimize"):
+        run_idtype(env, chk, {"kind": "integer-identifiers", "algo": algo, "subjects": subjects})
+
+
+def run_idtype(env, chk, cj):
+    df = pool(env, "continuous")
+    subjects = cj["subjects"]
+    sub = df[df.ID.isin(subjects)].copy()
+    ints = {sid: 7 * j + 3 for j, sid in enumerate(subjects)}
+    sub["ID"] = sub["ID"].map(ints)
+    want = list(dict.fromkeys(sub["ID"]))
+    algo = cj["algo"]
+    kw = dict(n_iter=4) if algo != "scipy_minimize" else {}
+    if True:
+        try:
+            with core.quiet():
+                ips = load_model(env, "logistic_diag_noise").personalize(env["Data"].from_dataframe(sub), algo, seed=0, progress_bar=False, **kw)
+            if list(ips._indices) != want or any(type(a) is not type(b) for a, b in zip(ips._indices, want)):
+                chk.impl_failure(cj, f"integer identifiers {want} come back as {ips._indices}")
+            out = "accepted"
+        except Exception as e:  # noqa
+            out = "refused:" + type(e).__name__
+        chk.case(("idtype", algo, tuple(subjects)), nontrivial=False, tags={"part": "integer identifiers", "integer_identifiers": out})
+
+
 def run_cases(env, chk, cases):
     global _ENV16
     if _ENV16 is None:
@@ -1178,12 +1483,27 @@ def selection_part(env, chk, rng, n_cases):
         mean = algorithm_factory(AlgorithmSettings("mean_posterior", n_iter=10, seed=0, progress_bar=False))
     for c in range(n_cases):
         K, n = rng.randrange(2, 12), rng.randrange(1, 5)
+        if c % 10 == 7:
+            K = rng.choice([1, 1, 400, 1000])          # a single kept draw; long chains (summation envelope of the mean)
+        if c % 10 == 3:
+            n = rng.choice([17, 40])
         dt = rng.choice([torch.float32, torch.float32, torch.float64])
         scale = rng.choice([1.0, 30.0, 1e3, 1e-2, -50.0])
         att = torch.tensor([[scale * rng.uniform(0.5, 1.5) for _ in range(n)] for _ in range(K)], dtype=dt)
         reg = torch.tensor([[rng.uniform(0.0, 3.0) for _ in range(n)] for _ in range(K)], dtype=dt)
-        kind = rng.choice(["plain", "exact-tie", "near-tie", "near-tie", "near-tie-late"])
-        if kind != "plain" and K >= 2:
+        kind = rng.choice(["plain", "exact-tie", "near-tie", "near-tie", "near-tie-late", "infinite-losses", "signed-zeros"])
+        if kind == "infinite-losses" and K >= 2:
+            # draws whose loss is +inf (an overflowing attachment) are never the lowest-loss draw unless every draw is
+            for i in range(n):
+                for k in rng.sample(range(K), rng.randrange(1, K + 1) if rng.random() < 0.2 else rng.randrange(1, K)):
+                    att[k, i] = float("inf")
+        elif kind == "signed-zeros" and K >= 2:
+            for i in range(n):
+                att[:, i] = abs(att[:, i]) + 1.0
+                k0, k1 = rng.sample(range(K), 2)
+                att[k0, i], reg[k0, i] = 0.0, -0.0
+                att[k1, i], reg[k1, i] = -0.0, 0.0
+        elif kind != "plain" and K >= 2:
             for i in range(n):
                 loss = att[:, i] + reg[:, i]
                 k0 = int(torch.argmin(loss))
@@ -1206,6 +1526,10 @@ def selection_part(env, chk, rng, n_cases):
                         pass
         vals = {"tau": torch.tensor([[[rng.uniform(50, 90)] for _ in range(n)] for _ in range(K)], dtype=torch.float32),
                 "sources": torch.tensor([[[rng.uniform(-2, 2), rng.uniform(-2, 2)] for _ in range(n)] for _ in range(K)], dtype=torch.float32)}
+        if c % 4 == 1:
+            del vals["sources"]                        # a model without sources
+        if c % 4 == 2:
+            vals["tau"] = vals["tau"].to(torch.float64)  # joint models hold float64 draws
         cj = {"kind": "selection", "K": K, "n": n, "dtype": str(dt), "tie": kind, "att": att.tolist(), "reg": reg.tolist(),
               "tau": vals["tau"].reshape(K, n).tolist()}
         try:
@@ -1226,7 +1550,9 @@ def selection_part(env, chk, rng, n_cases):
                     break
         for nm in vals:
             want = vals[nm].double().mean(dim=0)
-            if not bool(((gmean[nm].double() - want).abs() <= (K + 1) * 2.0 ** -24 * vals[nm].double().abs().max(dim=0).values + 1e-300).all()):
+            if gmean[nm].dtype != vals[nm].dtype or tuple(gmean[nm].shape) != tuple(vals[nm].shape[1:]):
+                chk.impl_failure(cj, f"mean: estimate of '{nm}' has dtype / shape {gmean[nm].dtype} / {tuple(gmean[nm].shape)}")
+            elif not bool(((gmean[nm].double() - want).abs() <= (K + 1) * 2.0 ** -24 * vals[nm].double().abs().max(dim=0).values + 1e-300).all()):
                 chk.impl_failure(cj, f"mean: estimate of '{nm}' is not the mean of the {K} draws")
         chk.case(("selection", c, kind, K, n, str(dt)), nontrivial=(kind != "plain"), tags={"part": "selection", "tie": kind})
 
@@ -1246,7 +1572,16 @@ def run(chk: core.Check):
                 "from_state on the stored models (with / without sources, joint, binary); mappings: prior modes, well-shaped (shuffled, extra "
                 "entries), a variable missing / too long / too short / empty; vectors of the right and of wrong lengths; plus every recorded "
                 "scipy run (x0, res.x, estimate). Non-trivial (scalings): construction succeeds, at least two variables, a well-shaped mapping "
-                "or a vector of the right length. Distinct by full configuration.")
+                "or a vector of the right length. Distinct by full configuration. A further stream runs the same algorithms through the other "
+                "forms the API accepts: table rows not grouped by individual, ages shifted by -30..+200 years, a visit without any value kept "
+                "(drop_full_nan=False), DataFrame / Data / Dataset input, algorithm given by name / AlgorithmName / AlgorithmSettings object / "
+                "settings file / algorithm_factory(...).run (one algorithm object run on one or two other cohorts first), a model object shared by all cases / re-calibrated just before / loaded with "
+                "hand-rescaled tau_std, xi_std, noise_std, the whole example cohort, seed 0 / None, progress bar, sampler tuning "
+                "(history length 1-5), chains of up to 130 iterations, burn-in as a count, a fraction (13 values) or both, a wider list of "
+                "optimiser methods and budgets, binary models and a mixture model calibrated in the harness (F121); the burn-in length "
+                "is always derived from the settings, never read back from the algorithm. Plus: n_jobs=2 against the in-process run, integer "
+                "identifiers (refused or returned unchanged), selection rule with infinite losses, signed zeros, one kept draw, 400-1000 draws, "
+                "17-40 individuals, float64 draws.")
     rng = chk.rng
     cases = list(core.load_corpus(PROP))
     thorough = chk.tier == "thorough"
@@ -1268,7 +1603,27 @@ def run(chk: core.Check):
     scal_cases = [gen_scal_case(env, rng2, "hand") for _ in range(1500 if thorough else 200)]
     scal_cases += [gen_scal_case(env, rng2, "state") for _ in range(150 if thorough else 24)]
     cases += scal_cases
+    # the same mechanisms through the other entry points / input forms / model objects / settings (own rng, generated last)
+    rng3 = _random.Random(rng.getrandbits(64))
+    wide = []
+    for m in models + [MIXTURE, "logistic_binary", "shared_speed_logistic_binary"]:
+        for algo in ("mean_posterior", "mode_posterior"):
+            for _ in range(6 if thorough else 1):
+                wide.append(gen_wide_case(env, rng3, algo, m))
+    for m in (models + [MIXTURE, "logistic_binary"]) if thorough else rng3.sample(CONTINUOUS, 5) + rng3.sample(JOINT, 2) + [MIXTURE]:
+        for _ in range(3 if thorough else 1):
+            wide.append(gen_wide_case(env, rng3, "scipy_minimize", m))
+    cases += wide
     run_cases(env, chk, cases)
+    if any(c["model"] == MIXTURE and c["algo"] != "scipy_minimize" for c in wide) and not env.get("_f121_seen") \
+            and any(f.get("id") == "F121" and f.get("status") == "finding" for f in chk.findings):
+        chk.note("finding F121 no longer reproduces")
+    idtype_part(env, chk, rng3)
+    if chk.time_left() > 60:
+        pooled_part(env, chk, rng3)
+    if "_tmp" in env:
+        import shutil
+        shutil.rmtree(env["_tmp"], ignore_errors=True)
     chk.exhaustive = False
 
 
@@ -1277,6 +1632,12 @@ def replay(chk: core.Check, payload):
     case = payload.get("case") or (payload.get("disagreements") or [{}])[0].get("case")
     if not case:
         chk.note("replay file has no case")
+        return
+    if case.get("kind") == "integer-identifiers":
+        run_idtype(env, chk, case)
+        return
+    if case.get("n_jobs", 1) != 1 and case.get("algo") == "scipy_minimize":
+        run_pooled(env, chk, case)
         return
     if case.get("kind") == "selection":
         import torch
